@@ -210,7 +210,7 @@ func C17(e *core.Env) {
 		os.WriteFile(pf, []byte(pd[0]), 0o644)
 		os.WriteFile(df, []byte(pd[1]), 0o644)
 		ctx, cancel := context.WithTimeout(context.Background(), 240*time.Second)
-		cmd := exec.CommandContext(ctx, self, "c06conc", pf, df, fmt.Sprint(e.Pick(40, 400)))
+		cmd := exec.CommandContext(ctx, self, "c17storm", pf, df, fmt.Sprint(e.Pick(500, 5000)))
 		var so, se bytes.Buffer
 		cmd.Stdout, cmd.Stderr = &so, &se
 		err := cmd.Run()
@@ -221,7 +221,7 @@ func C17(e *core.Env) {
 		}
 		if err != nil || json.Unmarshal(so.Bytes(), &cr) != nil {
 			res.Violate("impl-violates-property", "the process ends abnormally when 8 goroutines validate at once: "+core.Trunc(firstLineWith(se.String(), "fatal error", "panic:"), 160),
-				map[string]any{"profile": pd[0], "data": pd[1], "how": "8 goroutines x ValidateWithConfiguration of these inputs in a child process (verifh c06conc)", "exit": fmt.Sprint(err), "stderr_head": core.Trunc(se.String(), 1500)})
+				map[string]any{"profile": pd[0], "data": pd[1], "how": "16 goroutines x ValidateCompiledWithConfiguration (one shared compiled profile) and ValidateWithConfiguration of these inputs in a child process (verifh c17storm)", "exit": fmt.Sprint(err), "stderr_head": core.Trunc(se.String(), 1500)})
 		} else {
 			for _, d := range cr.Diffs {
 				if strings.HasPrefix(d, "panic:") {
@@ -316,6 +316,60 @@ func C17(e *core.Env) {
 	res.Unmodelled = []string{"termination and panic-freedom of yaml.v3, encoding/json, json-gold and OPA are observed (bounded wall clock, recover), not proved",
 		"stack exhaustion, out-of-memory and runtime fatal errors cannot be recovered and are outside the model",
 		"json-gold fetches remote @context URLs named by the DATA; in this sandbox the attempt is refused at once, elsewhere it can block for the duration of a network timeout"}
+}
+
+// C17Storm is the child process of the concurrent stream: one compiled profile shared by 16 goroutines, each validating
+// `rounds` times (every 16th call from the profile text); prints the report alone and the differences seen.
+func C17Storm(profilePath, dataPath string, rounds int) {
+	p, _ := os.ReadFile(profilePath)
+	d, _ := os.ReadFile(dataPath)
+	rc := config.DefaultReportConfiguration()
+	q, err := pkg.CompileProfile(string(p), false, nil)
+	if err != nil {
+		fmt.Printf("{\"Ref\": %q, \"Diffs\": []}\n", "error: "+err.Error())
+		return
+	}
+	one := func(k int) string {
+		var o string
+		var err error
+		if k%16 == 15 {
+			o, err = pkg.ValidateWithConfiguration(string(p), string(d), false, nil, clockA, rc)
+		} else {
+			o, err = pkg.ValidateCompiledWithConfiguration(q, string(d), false, nil, clockA, rc)
+		}
+		if err != nil {
+			return "error: " + err.Error()
+		}
+		return o
+	}
+	ref := one(0)
+	diffs := make([]string, 16)
+	var wg sync.WaitGroup
+	for w := 0; w < 16; w++ {
+		wg.Add(1)
+		go func(w int) {
+			defer wg.Done()
+			defer func() {
+				if r := recover(); r != nil {
+					diffs[w] = fmt.Sprintf("panic: %v", r)
+				}
+			}()
+			for k := 0; k < rounds; k++ {
+				if o := one(k + w); o != ref && diffs[w] == "" {
+					diffs[w] = firstDiff(ref, o)
+				}
+			}
+		}(w)
+	}
+	wg.Wait()
+	out := []string{}
+	for _, x := range diffs {
+		if x != "" {
+			out = append(out, x)
+		}
+	}
+	enc, _ := json.Marshal(map[string]any{"Ref": ref, "Diffs": out})
+	os.Stdout.Write(enc)
 }
 
 func hashString(s string) uint64 {
